@@ -16,7 +16,7 @@ RULE = ("rt/err probe (server renders a backend result exactly as writeError / d
         "halves separately; e2e probe: a scripted backend refuses MAIL, RCPT or Data with each code x enhanced code x message shape and the "
         "real client's returned error is compared with it. non-trivial = multi-line, or unset/absent enhanced code, or text starting with a code-like token")
 THEOREMS = ["C17_roundtrip", "render_lines", "C17_unset_class", "C17_generic_envelope", "C17_generic_data",
-            "C17_server_passes_mail_error", "C17_server_passes_mail_plain_error", "C17_server_passes_rcpt_error", "C17_server_passes_data_error"]
+            "C17_server_passes_mail_error", "C17_server_passes_mail_plain_error", "C17_server_passes_rcpt_error", "C17_server_passes_data_error", "C17_lmtp_hello_reports_refusal"]
 KNOWN = {}
 nontrivial = lambda case, ans: any(x in case for x in ("0a", "/0.0.0/", "/-1.-1.-1/", "352e")) or case.startswith("rt\terr") and "er/" in case
 signature = lambda case, ans: "e2e" if case.startswith("e2e") else "/".join(case.split("\t")[:3]) + "->" + ans.split("/")[0]
